@@ -210,7 +210,9 @@ void harness(void) {
 		if (!sync && n == VF_NTHR && pending == VF_NTHR) VF_CANARY("bsend: asynchronous, all queued");
 		if (want_counts && err_cnt == 1 && send_cnt == VF_NTHR - 1) VF_CANARY("bsend: one send failed");
 #elif VF_SELF <= VF_NTHR
-		if (sync && n == 1 && VF_SELF == 1) VF_CANARY("bsend: single thread, synchronous, from itself");
+#if VF_SELF == 1
+		if (sync && n == 1) VF_CANARY("bsend: single thread, synchronous, from itself");
+#endif
 		if (sync && n == VF_NTHR && (flags & TP_BMSG_F_SELF_SKIP) && vf_popped == VF_NTHR - 1) VF_CANARY("bsend: SYNC from a pool thread, itself skipped");
 		if (sync && n == VF_NTHR && (flags & TP_MSG_F_SELF_DIRECT) && !(flags & TP_BMSG_F_SELF_SKIP) && vf_cb_total == VF_NTHR) VF_CANARY("bsend: SYNC from a pool thread, itself served directly");
 #else
